@@ -87,6 +87,7 @@ type Contract struct {
 	Ensures         []Clause
 	EnsuresLocal    []Clause // proved at the function's exits, never handed to callers (may talk about the function's own locals)
 	EnsuresPanicLoc []Clause // the same for exits by panic
+	NoMethods       []string // "T: m1, m2": type T of this package declares none of these methods itself (they stay promoted)
 	EnsuresPanic    []Clause
 	HasEnsuresPanic bool
 	Modifies        []Clause
@@ -148,7 +149,7 @@ func newContractSet() *ContractSet {
 }
 
 var clauseKeywords = map[string]bool{
-	"requires": true, "ensures": true, "ensures_local": true, "ensures_panic_local": true, "ensures_panic": true, "modifies": true, "loop": true, "call": true,
+	"requires": true, "ensures": true, "ensures_local": true, "ensures_panic_local": true, "nomethods": true, "ensures_panic": true, "modifies": true, "loop": true, "call": true,
 	"ghost": true, "property": true, "float": true, "overflow": true, "trusted": true, "pure": true, "nopanic": true,
 	"may_panic": true, "func": true, "spec": true, "lockinv": true, "guarded_by": true, "owns": true, "extern": true, "lemma": true,
 	"let": true, "captures": true, "hyp": true, "goal": true, "drop": true, "purepkg": true, "flag": true, "results": true,
@@ -661,6 +662,8 @@ func (cs *ContractSet) ParseFile(path, pkgPath string) error {
 				cur.EnsuresLocal = append(cur.EnsuresLocal, cs.clause(rest, path, ll.line))
 			case "ensures_panic_local":
 				cur.EnsuresPanicLoc = append(cur.EnsuresPanicLoc, cs.clause(rest, path, ll.line))
+			case "nomethods":
+				cur.NoMethods = append(cur.NoMethods, rest)
 			case "ensures_panic":
 				cur.HasEnsuresPanic = true
 				cur.EnsuresPanic = append(cur.EnsuresPanic, cs.clause(rest, path, ll.line))
